@@ -55,8 +55,11 @@ CLAIMED = {
     "C05": ("Coq proof of exact coverage by ensure_active_values on the container model (Cover.v) + domain theorems of C14 + implementation-level check of every issued trial on the four real oracles",
             "C05_exactly_active: for any search space in which parents precede children and names are distinct (C13_parents_first shows build programs produce such spaces) and ANY input values, after "
             "ensure_active_values - which Oracle._record_values applies to every new trial of every oracle kind - a name has a value iff its entry is active; names outside the space (tuner/*) are untouched. "
-            "Domain membership of what prob_to_value/values/default produce: C14. The per-oracle production of values is not modelled here (grid: C09, Hyperband: C10): on every run each trial issued by the real "
-            "random/grid/Hyperband/Bayesian oracles over generated spaces (all kinds, conditions to depth 4, spaces growing during the search) is checked for exact coverage and domain.",
+            "Per oracle: C05_random_values_exactly_active (whatever _random_values returns - random search, Hyperband first rounds, Bayesian warm-up - is valued on exactly the active entries, for every sample table, "
+            "tried set and seed); C05_grid_combination_valid + C05_grid_trials_valid (every combination of the grid enumeration, hence - by the invariant of C09_invariant(_reload) - every trial the grid oracle holds in "
+            "any state of any run, carries a value for exactly the active entries, each taken from [default]+values, and none for a name outside the space). Domain membership of what prob_to_value produces: C14. "
+            "PARTIAL: Hyperband's copy of the parent's values and the Bayesian vector-to-values step are not modelled: on every run each trial issued by the real "
+            "random/grid/Hyperband/Bayesian oracles over generated spaces (all kinds, conditions to depth 4, names shared between exclusive branches with equal or different domains, spaces growing during the search) is checked for exact coverage and domain.",
             "Trusted: Coq kernel; the container model is tied to HyperParameters by the C13 correspondence; distinct names assumed; Bayesian oracle runs the real GP.", "DESIGN.md section 6 C05"),
     "C12": ("differential replay in fresh interpreters (different PYTHONHASHSEED and global seeds) + the models being functions of the seeded sample table only",
             "Every scenario (seeded worker-pool histories on the four real oracles with hyperparameters discovered inside trials, Hyperband promotions after the space grew, tuner constructions over "
